@@ -205,6 +205,7 @@ def clamps(F, res, reach):
     from ..common import row_lookup
     rows = {r["key"]: r["reason"] for r in table("e4_rows")["clamps"]}
     sites = []
+    counts = []
     for p in sorted(reach):
         f = F.built.get(p, F.fns[p])
         if is_derive(f):
@@ -213,6 +214,12 @@ def clamps(F, res, reach):
             c = t.get("callee") or ""
             last = c.split("::")[-1]
             if last.startswith(("saturating_", "wrapping_")) or last == "clamp" or (last in ("min", "max") and c.startswith("std::cmp::Ord::")):
+                if "<impl usize>" in c and any(o.kind == "call" and (o.callee or "").split("::")[-1] in ("len", "count")
+                                               for a in t["args"] for o in mir.provenance(f, mir.DefUse(f), a)):
+                    # arithmetic on a number of elements (`limit.saturating_sub(picked.len())`), not on a quantity: a quantity
+                    # that became a usize went through a cast the CAST rule sees
+                    counts.append(("%s|%s" % (p, last), where(f, t["line"])))
+                    continue
                 sites.append(("%s|%s" % (p, last), where(f, t["line"]), last))
     look = row_lookup(rows, {k for k, _, _ in sites})
     for key, w, last in sites:
@@ -221,6 +228,8 @@ def clamps(F, res, reach):
             res.add([ok("CLAMP", key, w, "D-TABLE: " + r[0] + (" (row relocated from %s)" % r[1] if r[1] else ""))])
         else:
             res.add([finding("CLAMP", key, w, "`%s` on the quantity path clamps or wraps a value instead of failing" % last)])
+    for key, w in counts:
+        res.add([ok("CLAMP", key + " (element count)", w, "usize arithmetic on a len()/count(): a number of elements, not a quantity")])
     res.count("clamp/wrap calls", len(sites))
 
 
